@@ -53,6 +53,9 @@ func (rt *runtime) newNativeFunctionObject(name, file string, line int, native n
 	o.defineOwnProperty("caller", property{
 		value: propertyGetSet{
 			rt.newNativeFunctionProperty("get", "internal", 0, func(fc FunctionCall) Value {
+				// The runtime and the function are those of the call, not those
+				// captured here: the getter is shared with copies of the runtime.
+				rt, o := fc.runtime, fc.This.object()
 				for sc := rt.scope; sc != nil; sc = sc.outer {
 					if sc.frame.fn == o {
 						if sc.outer == nil || sc.outer.frame.fn == nil {
@@ -123,6 +126,9 @@ func (rt *runtime) newNodeFunctionObject(node *nodeFunctionLiteral, stash stashe
 	o.defineOwnProperty("caller", property{
 		value: propertyGetSet{
 			rt.newNativeFunction("get", "internal", 0, func(fc FunctionCall) Value {
+				// The runtime and the function are those of the call, not those
+				// captured here: the getter is shared with copies of the runtime.
+				rt, o := fc.runtime, fc.This.object()
 				for sc := rt.scope; sc != nil; sc = sc.outer {
 					if sc.frame.fn == o {
 						if sc.outer == nil || sc.outer.frame.fn == nil {
